@@ -339,8 +339,13 @@ def lazy_taint(prog, f, dask_only=True, module_param=None):
         child = n
         while p is not None:
             if isinstance(p, ast.If) and module_param:
-                t = norm(p.test)
+                tn = p.test
                 inbody = child in p.body
+                while isinstance(tn, ast.UnaryOp) and isinstance(tn.op, ast.Not):
+                    tn, inbody = tn.operand, not inbody       # `if not module == da: A else: B` reads as `if module == da: B else: A`
+                t = norm(tn)
+                if t.startswith('%s != ' % module_param):
+                    t, inbody = t.replace(' != ', ' == ', 1), not inbody
                 if t in ('%s == da' % module_param, '%s is da' % module_param):
                     if not inbody:
                         return True
